@@ -147,7 +147,9 @@ func (c18) Gen(r *sim.Rand, c *sim.Case, tier string) {
 	}
 	// data
 	d := &world.TData{Vars: map[string]any{}, Images: map[string][]int{"pic": world.TplImageSpec(r, []int{r.Intn(3), 6, 5, 424242})}}
-	vals := []any{"plain", "Ünï 中文", "a<b>&\"c'", "  spaced  ", "", float64(r.Range(-5, 900)), 12.5, true, "tab\there", "ctl\x01char"}
+	vals := []any{"plain", "Ünï 中文", "a<b>&\"c'", "  spaced  ", "", float64(r.Range(-5, 900)), 12.5, true, "tab\there", "ctl\x01char",
+		// text that looks like markup that was escaped already: it is text, and comes out as it went in
+		"write &amp; for an ampersand", "&lt;b&gt; &quot;q&quot; &apos;", "bell &#7; and &#x41; and &#65;", "&amp;amp; &unknown; &#;"}
 	if Wild {
 		vals = append(vals, "{{title}}")
 	}
